@@ -395,4 +395,90 @@ mutual
 end
 
 
+/-! ### Paths of raw child indices -/
+
+def rawChildAt (lang : Lang) (n : NodeRef) (k : Nat) : Option NodeRef := ((rawChildren lang n)[k]?).map (·.node)
+
+/-- The node reached from `n` by following raw child indices. -/
+def nodeAt (lang : Lang) : NodeRef → List Nat → Option NodeRef
+  | n, [] => some n
+  | n, k :: rest => match rawChildAt lang n k with
+    | some c => nodeAt lang c rest
+    | none => none
+
+/-- What `ts_node_child_with_descendant` is meant to return: the first relevant (visible or
+aliased) node strictly below `n` on the path; the end of the path itself if none is relevant
+before it. -/
+def firstRelevantOnPath (lang : Lang) : NodeRef → List Nat → Option NodeRef
+  | _, [] => none
+  | n, k :: rest => match rawChildAt lang n k with
+    | some c => if rest.isEmpty || c.relevant lang true then some c else firstRelevantOnPath lang c rest
+    | none => none
+
+/-- Side conditions of the path (all decidable, evaluated on the real trees by the driver):
+no earlier sibling along the path and no proper ancestor shares the descendant's id, and every
+proper ancestor below `n` reports a positive visible child count. -/
+def pathOK (lang : Lang) (dId : Nat) : NodeRef → List Nat → Bool
+  | _, [] => true
+  | n, k :: rest =>
+    ((rawChildren lang n).take k).all (fun rc => rc.node.id != dId) &&
+    match rawChildAt lang n k with
+    | some c => rest.isEmpty || (c.id != dId && c.childCount != 0 && pathOK lang dId c rest)
+    | none => false
+
+
+/-- The nearest relevant proper ancestor of the end of the path (`best` if there is none):
+what `ts_node_parent` is meant to return, with `best = n = root`. -/
+def parentOnPath (lang : Lang) : NodeRef → NodeRef → List Nat → NodeRef
+  | best, _, [] => best
+  | best, _, [_] => best
+  | best, n, k :: k' :: rest => match rawChildAt lang n k with
+    | some c => parentOnPath lang (if c.relevant lang true then c else best) c (k' :: rest)
+    | none => best
+
+/-- `firstRelevantOnPath` together with the rest of the path. -/
+def relSplit (lang : Lang) : NodeRef → List Nat → Option (NodeRef × List Nat)
+  | _, [] => none
+  | n, k :: rest => match rawChildAt lang n k with
+    | some c => if rest.isEmpty || c.relevant lang true then some (c, rest) else relSplit lang c rest
+    | none => none
+
+
+mutual
+  /-- Every non-empty path of raw child indices below a tree, in preorder. -/
+  def pathsOf : Tree → List (List Nat)
+    | .mk _ kids => pathsKids kids 0
+  def pathsKids : List Tree → Nat → List (List Nat)
+    | [], _ => []
+    | c :: rest, k => ([k] :: (pathsOf c).map (k :: ·)) ++ pathsKids rest (k + 1)
+end
+
+/-- Evaluation of the hypotheses of `parent_spec_partial` / `child_with_descendant_spec_partial`
+on a real tree: over every relevant node below the root, `checked` = non-empty nodes whose path
+satisfies `pathOK` (ids distinct along the search, ancestors report visible children) and for which
+the ported `ts_node_parent` returns `parentOnPath`; `zeroWidth` = nodes excluded by the
+non-emptiness hypothesis; `bad` = non-empty nodes violating a hypothesis or the conclusion. -/
+structure ParentHyp where
+  checked : Nat := 0
+  zeroWidth : Nat := 0
+  bad : Nat := 0
+  /-- ids of the expected parents (`parentOnPath`) for the link with the flattened tree -/
+  parents : List (Nat × Nat) := []
+
+def parentHyp (lang : Lang) (root : NodeRef) : ParentHyp :=
+  (pathsOf root.t).foldl (init := {}) fun acc p =>
+    match nodeAt lang root p with
+    | none => { acc with bad := acc.bad + 1 }
+    | some d =>
+      if !d.relevant lang true then acc
+      else if d.startByte == d.endByte then { acc with zeroWidth := acc.zeroWidth + 1 }
+      else
+        let exp := parentOnPath lang root root p
+        let okH := root.id != d.id && pathOK lang d.id root p
+        let okC := match nodeParent lang (p.length + 1) root d with
+          | some r => r.id == exp.id
+          | none => false
+        if okH && okC then { acc with checked := acc.checked + 1, parents := (d.id, exp.id) :: acc.parents }
+        else { acc with bad := acc.bad + 1 }
+
 end TsVerif.C06
